@@ -287,7 +287,50 @@ C17_Slots ==
                 /\ StakeHeld(st', k[2], k[1], k[3]) = Zero,
           [at |-> Where, waiting |-> [k \in GrownWait |-> <<WaitVal(st, k), WaitVal(st', k)>>],
            smallest |-> [p \in FullCands |-> LET vs == {x.bv : x \in Range(st'.cands[p].stakes)} IN CHOOSE m \in vs : \A y \in vs : m \preceq y]])
+\* ======================================================================== C19 (payout)
+\* At a payout height the accumulated reward A of every validator (including this block's accrual) is split in exact integers:
+\*   DAO = floor(A/10), developers = floor(A/10), validator = floor((A - DAO - dev) * commission / 100) to the reward address,
+\*   each stake i: floor(rest * bv_i / stake_v) to its owner (bv_i = base-coin value of the stake, stake_v = the validator's
+\*   recorded total), the remainder to total slashed; the accumulator is emptied.  Rewards are delegated, not paid to the
+\*   balance: what an owner holds at the candidate in base coin (stake + pending update + wait list) grows by its rewards.
+\* Owners whose stakes are locked (LockStake) earn more than the proportional share; for validators with such delegators only
+\* "at least the proportional share" is required here (the x3 branch is bounded by C01's emission clause).
+Tenth(a) == a // Nat2A(10)
+AccumAtPayout(v) == IF v.toDrop THEN Zero ELSE IF v.p \in hist.present THEN v.accum ++ ShareOf(v) ELSE v.accum
+ValCut(p, a) == (((a -- Tenth(a)) -- Tenth(a)) ** Nat2A(st.cands[p].comm)) // Nat2A(100)
+RestFor(p, a) == ((a -- Tenth(a)) -- Tenth(a)) -- ValCut(p, a)
+DelegatorReward(v, x) == IF x.bv = Zero \/ v.stake = Zero THEN Zero ELSE (RestFor(v.p, AccumAtPayout(v)) ** x.bv) // v.stake
+StakeRewards(v, o) == SumOver(SelectSeq(st.cands[v.p].stakes, LAMBDA x : x.o = o), LAMBDA x : DelegatorReward(v, x))
+ExpectedReward(v, o) == StakeRewards(v, o)
+                        ++ (IF o = st.cands[v.p].reward THEN ValCut(v.p, AccumAtPayout(v)) ELSE Zero)
+                        ++ (IF o = "dao" THEN Tenth(AccumAtPayout(v)) ELSE Zero)
+                        ++ (IF o = "dev" THEN Tenth(AccumAtPayout(v)) ELSE Zero)
+HeldAll(s, id, o, c) == StakeHeld(s, id, o, c) ++ WaitVal(s, <<o, id, c>>)
+PaidVals == {i \in DOMAIN st.vals : st.vals[i].p \in DOMAIN st.cands /\ st.vals[i].p \in DOMAIN st'.cands
+                                     /\ ~(st.vals[i].toDrop /\ st.vals[i].stake = Zero)}
+OwnersAt(p) == {x.o : x \in Range(st.cands[p].stakes)} \cup {st.cands[p].reward, "dao", "dev"}
+HasLocked(p) == \E o \in OwnersAt(p) : LockOf(st, o) > H
+NoFrozenBorn == BagOf(st'.frozen) = BagOf(st.frozen)
+C19_Payout ==
+   Clause("C19", "PayoutSplitExactAndProportional", IsKind("EndBlock") /\ NoPanic /\ IsPayout /\ PaidVals # {} /\ NoFrozenBorn,
+          \A i \in PaidVals : LET v == st.vals[i]  id == st.cands[v.p].id IN
+             \A o \in OwnersAt(v.p) :
+                LET gain == HeldAll(st', id, o, Base) -- HeldAll(st, id, o, Base) IN
+                IF HasLocked(v.p) THEN ExpectedReward(v, o) \preceq gain ELSE gain = ExpectedReward(v, o),
+          [at |-> Where,
+           wrong |-> {<<st.vals[i].p, o>> : i \in PaidVals, o \in UNION {OwnersAt(st.vals[j].p) : j \in PaidVals}} \cap
+                     {po \in (DOMAIN st.cands) \X (UNION {OwnersAt(st.vals[j].p) : j \in PaidVals}) :
+                        po[1] \in {st.vals[j].p : j \in PaidVals} /\ po[2] \in OwnersAt(po[1]) /\ ~HasLocked(po[1]) /\
+                        LET v == ValOf(st, po[1]) IN
+                        HeldAll(st', st.cands[po[1]].id, po[2], Base) -- HeldAll(st, st.cands[po[1]].id, po[2], Base) # ExpectedReward(v, po[2])},
+           accum |-> [i \in PaidVals |-> <<st.vals[i].p, AccumAtPayout(st.vals[i])>>]])
+C19_Emptied ==
+   Clause("C19", "AccumulatorEmptiedAtPayout", IsKind("EndBlock") /\ NoPanic /\ IsPayout,
+          \A i \in DOMAIN st'.vals : st'.vals[i].accum = Zero,
+          [at |-> Where, left |-> [i \in DOMAIN st'.vals |-> <<st'.vals[i].p, st'.vals[i].accum>>]])
+C19_PayoutStep == C19_Payout /\ C19_Emptied
+
 C17_Step == C17_Set /\ C17_Power /\ C17_Slots
 
-StakingStep == C16_Step /\ C18_Step /\ C20_Step /\ C19_Step /\ C17_Step /\ C05_StakingStep
+StakingStep == C16_Step /\ C18_Step /\ C20_Step /\ C19_Step /\ C19_PayoutStep /\ C17_Step /\ C05_StakingStep
 =============================================================================
